@@ -826,6 +826,20 @@ Definition sp_offer_userlazy_f (c : cfg) (st : astate) (nx : N) (v : nat) (idx :
   | None => None
   end.
 
+(** clone() whose (k+1)-th Clone panics: k new values exist - and are leaked, the half-built clone is dropped
+    with its length still 0 -, no vector of the world changes, nothing is destroyed *)
+Definition sp_clone_f (c : cfg) (st : astate) (nx : N) (v dst : nat) (k : N) : option sres :=
+  if Nat.eqb dst v then None
+  else match get_a v st with
+       | None => None
+       | Some a =>
+           let xs := a_xs a in
+           if k <? N.of_nat (length xs)
+           then Some (panic_res PUser (map (fun p => EClone (fst p) (snd p)) (combine (firstn (N.to_nat k) xs) (next_ids c nx (N.to_nat k))))
+                                st (nx + k))
+           else None
+       end.
+
 Definition spec_step_f (c : cfg) (st : astate) (nx : N) (fuse : option N) (o : op) : option sres :=
   match fuse with
   | None => spec_step c st nx o
@@ -844,6 +858,7 @@ Definition spec_step_f (c : cfg) (st : astate) (nx : N) (fuse : option N) (o : o
       | OPop _ v KDrop => sp_take_drop_f c st nx v TPop 0 k
       | ORemove _ v idx KDrop => sp_take_drop_f c st nx v TRemove idx k
       | OSwapRemove _ v idx KDrop => sp_take_drop_f c st nx v TSwapRemove idx k
+      | OClone v dst => sp_clone_f c st nx v dst k
       | OPush Erased v (SLazy _ src sidx) => if k =? 0 then sp_offer_lazy_f c st nx v None src sidx else None
       | OInsert Erased v idx (SLazy _ src sidx) => if k =? 0 then sp_offer_lazy_f c st nx v (Some idx) src sidx else None
       | OPush Erased v (SLazyUser _) => if k =? 0 then sp_offer_userlazy_f c st nx v None else None
